@@ -131,7 +131,7 @@ PROPS["C19"] = dict(
 
 PROPS["C20"] = dict(
     level="model_checking",
-    groups=lambda tier, seed, ctx: [Group("c20", ["verif_c20"], jobs=14, harness_timeout=1200 if tier == "quick" else 3600, mem_gb=12)],
+    groups=lambda tier, seed, ctx: [Group("c20", ["verif_c20"], jobs=14, harness_timeout=300 if tier == "quick" else 3600, mem_gb=12)],
     functions=["debug::command::{parse_address,parse_command,normalize_command}", "debug::disassembly::disassemble", "decoder::{decode,decode_cb}"],
     bounds={"quick": "parse_address: all 65536 values in lower/upper-case, padded/unpadded 0x-hex and in decimal; 0x10000..0xFFFFF and 65536..999999 rejected; "
                      "'0x' + up to 4 arbitrary printable ASCII bytes accepted iff hex digits; arbitrary ASCII tokens <= 5 bytes total. disassemble: every first byte "
